@@ -36,6 +36,7 @@ type Clause struct {
 	Params []string // for parametrised let (macro)
 	Macro  bool
 	Unroll int
+	Thorough bool // only checked in the thorough tier (slow to discharge)
 	Props []string
 	Line  int
 	Aux   bool
@@ -336,6 +337,10 @@ func (cs *ContractSet) addClause(pkg, file string, cur **Contract, line int, tex
 	if m := labelRe.FindStringSubmatch(rest); m != nil {
 		cl.Label = m[1]
 		rest = rest[len(m[0]):]
+	}
+	if strings.HasPrefix(rest, "@thorough ") {
+		cl.Thorough = true
+		rest = strings.TrimSpace(rest[10:])
 	}
 	if strings.HasPrefix(rest, "aux ") {
 		cl.Aux = true
